@@ -153,6 +153,20 @@ pub fn stop_case(rng: &mut Rng, out: &mut Out, invalid_utf8: bool) {
                     out.violation("stop controller returned text after it had stopped", input.to_string());
                 }
             }
+            // a run that ends at a stop token (no stop string matched before it) returns exactly the text of
+            // the tokens before that token (plain-text tokens only: how special tokens are rendered is not judged)
+            let stop_idx = toks.iter().position(|t| stop_tokens.contains(t));
+            if let (Some(si), Some(fs)) = (stop_idx, flags.iter().position(|&f| f)) {
+                let before = &toks[..si];
+                if fs == si && before.iter().all(|&t| !ws[t as usize].is_empty() && ws[t as usize][0] != 0xFF) {
+                    let d: Vec<u8> = before.iter().flat_map(|&t| ws[t as usize].clone()).collect();
+                    if let Ok(ds) = String::from_utf8(d) {
+                        if total != ds {
+                            out.violation(&format!("the run ended at a stop token but the text returned ({total:?}) is not the text of the tokens before it ({ds:?})"), input.to_string());
+                        }
+                    }
+                }
+            }
             if decoded_valid && total.contains('\u{fffd}') {
                 out.violation("stop controller split a UTF-8 character of a valid stream", input.to_string());
             }
